@@ -34,3 +34,18 @@ def ctl(seed, tier, quick=(60, 400), thorough=(1500, 20000)):
     a, b = quick if tier == "quick" else thorough
     r = C.run(seed, a, b)
     return dict(ok=r["ok"], cases=r["cases"], distinct_nontrivial=r["cases"], kinds=r["kinds"], outcomes=r["outcomes"], boundary_cases=r["boundary_cases"], samples=r["samples"], disagreements=r["disagreements"][:3])
+
+
+def numjac(seed, tier, quick=40, thorough=1500):
+    from harness import numjac as N
+
+    r = N.run(seed, quick if tier == "quick" else thorough)
+    return dict(ok=r["ok"], cases=r["cases"], distinct_nontrivial=r["edges"], kinds=r["kinds"], arities=r["arities"], samples=r["samples"], disagreements=r["disagreements"][:3])
+
+
+def purity(seed, tier, quick=(60, 40), thorough=(3000, 50)):
+    from harness import purity as P
+
+    a, b = quick if tier == "quick" else thorough
+    r = P.run(seed, a, b)
+    return dict(ok=r["ok"], cases=r["cases"], distinct_nontrivial=r["cases"], traces=r["traces"], ops=r["ops"], alias_probes=r["alias_probes"], samples=r["samples"], disagreements=r["disagreements"][:3])
